@@ -105,7 +105,7 @@ func verSize(ver []leveldb.VerifTable) int {
 
 // onEdit runs under the runner's lock, on the committing goroutine (dbh.Hooks.OnEdit).
 func (fc *fcollector) onEdit(r *dbh.Runner, e leveldb.VerifEdit) {
-	if r.Prog.Cfg.Snappy {
+	if r.Prog.Cfg.Snappy || r.Prog.Cfg.CmpID >= 4 { // byte-level theorems assume an injective comparer
 		if len(e.Deleted) > 0 {
 			leveldb.VerifTakePick(e.Stor)
 		}
